@@ -443,6 +443,29 @@ static int run_codegen(uint64_t seed, int threads, uint32_t programs) {
   return 0;
 }
 
+// ---------------------------------------------------------------------------------------------------------------- cold start (OUTSIDE the premise)
+// Threads that construct their own JitRuntime as their very first AsmJit call: CpuInfo::host() and VirtMem::info() are then
+// initialised concurrently. The property's premise ("once the host information has been initialised") excludes this; the mode
+// exists to document what happens (design/C11.md) and its ThreadSanitizer reports are never counted as violations.
+static int run_coldstart(uint64_t seed, int threads) {
+  std::atomic<int> go{0};
+  std::vector<uint32_t> feat((size_t)threads, 0), pg((size_t)threads, 0);
+  std::vector<std::thread> th;
+  for (int t = 0; t < threads; t++) th.emplace_back([&, t] {
+    while (!go.load()) {}
+    JitRuntime rt;
+    feat[size_t(t)] = uint32_t(fnv(&rt.cpu_features(), sizeof(CpuFeatures)));
+    pg[size_t(t)] = VirtMem::info().page_size;
+    JitAllocator::Span s;
+    if (rt.allocator().alloc(Out(s), 64 + size_t(t)) == Error::kOk) rt.allocator().release(s.rx());
+  });
+  go.store(1);
+  for (auto& t : th) t.join();
+  for (int t = 1; t < threads; t++) if (feat[size_t(t)] != feat[0] || pg[size_t(t)] != pg[0]) mismatch("coldstart: threads observed different host information");
+  printf("%s coldstart seed=%llu threads=%d\n", g_mismatches.empty() ? "OK" : "MISMATCH", (unsigned long long)seed, threads);
+  return 0;
+}
+
 int main(int argc, char** argv) {
   if (argc < 6) { fprintf(stderr, "usage: c11_harness alloc|runtime|codegen seed threads ops opt\n"); return 2; }
   std::string mode = argv[1];
@@ -450,6 +473,11 @@ int main(int argc, char** argv) {
   int threads = atoi(argv[3]);
   uint32_t ops = uint32_t(strtoul(argv[4], nullptr, 10));
   uint32_t opt = uint32_t(strtoul(argv[5], nullptr, 10));
+  if (mode == "coldstart") {
+    run_coldstart(seed, threads);
+    for (auto& m : g_mismatches) printf("DETAIL %s\n", m.c_str());
+    return g_mismatches.empty() ? 0 : 3;
+  }
   init_host_info();
   if (mode == "alloc") run_alloc(seed, threads, ops, opt);
   else if (mode == "runtime") run_runtime(seed, threads, ops, opt);
